@@ -20,7 +20,9 @@ RULE = ('API-built trees with every interleaving of text, comment, CDATA, proces
         'escapes; :-soup-contains, :-soup-contains-own, :contains, both in one compound, and :empty. Checked on PY against '
         'an independent structural text extraction (the property) and PY = Lean matcher model. Non-trivial = non-empty result.')
 
-WORDS = ['ab', 'a', 'b', 'x y', '', ' ', 'zz', 'a"b', "c'd", 'p,q', '\n', 'b a']
+WORDS = ['ab', 'a', 'b', 'x y', '', ' ', 'zz', 'a"b', "c'd", 'p,q', '\n', 'b a',
+         # blank for CSS (space, tab, LF, FF, CR) vs blank only for Python's str.strip / \s: the latter is content
+         '\t\r\f', '\xa0', '\u2003', '\u3000', '\x0b', '\x1c', '\x85', '\u2028', ' \xa0 ']
 KINDS = ['t', 't', 't', 'c', 'cd', 'pi', 'dt', 'dc']
 
 
@@ -34,6 +36,19 @@ def tree(r, depth=0):
             kids.append(tree(r, depth + 1))
     name = r.choice(['div', 'p', 'span', 'iframe', 'IFRAME', 'b'])
     return ('e', name, None, None, [], kids)
+
+
+def chain_tree(r):
+    """An iframe that ends a chain of last children k levels deep, with text following further up: where the walk resumes
+    after a skipped iframe is decided by what follows it in document order, at any distance."""
+    inner = ('e', r.choice(['iframe', 'IFRAME']), None, None, [], r.choice([[], [('t', 'zz')], [('e', 'p', None, None, [], [('t', 'ab')])]]))
+    node = inner
+    for _ in range(r.randint(0, 3)):
+        before = [(r.choice(KINDS), r.choice(WORDS)) for _ in range(r.randint(0, 2))]
+        node = ('e', r.choice(['div', 'p', 'span', 'b']), None, None, [], before + [node])
+    after = [r.choice([('t', r.choice(['ab', 'b', 'zz', 'x y'])), ('e', 'span', None, None, [], [('t', r.choice(['ab', 'a', 'zz']))]),
+                       ('c', 'ab')]) for _ in range(r.randint(0, 2))]
+    return ('e', 'div', None, None, [], [(r.choice(KINDS), r.choice(WORDS)) for _ in range(r.randint(0, 1))] + [node] + after)
 
 
 def text_of(node, cut_iframes, xml, top=True):
@@ -58,7 +73,7 @@ def make_cases_factory(state):
         cases = []
         while len(cases) < n:
             kind = rng.choice(['html', 'html5', 'xhtml', 'xml'])
-            top = [tree(rng)]
+            top = [chain_tree(rng) if rng.random() < 0.25 else tree(rng)]
             soup = gen.build_doc(kind, top)
             xml = bool(soup._is_xml)
             is_html = (not xml) or kind == 'xhtml'
